@@ -240,8 +240,10 @@ def amuset(ctx, variant, d, m, mix, pairs, perm, ef=False):
     ctx.check('at least one feasible path', len(res) >= 1)
 
 
-@scenario('C18', 'reduced_matrix', lambda tier: [{'r': r, 'm': m, 'nx': nx} for r in (1, 2) for m in (3, 4) for nx in (2, 3) if nx < m])
-def reduced_matrix(ctx, r, m, nx):
+@scenario('C18', 'reduced_matrix', lambda tier: [{'r': r, 'm': m, 'nx': nx} for r in (1, 2) for m in (3, 4) for nx in (2, 3) if nx < m] +
+          # many more snapshots than rows (index sets more than ten times longer than the rank), rows of very different size
+          [{'r': 2, 'm': 24, 'nx': 22, 'scale': 0.01}, {'r': 1, 'm': 13, 'nx': 12, 'scale': 1.0}, {'r': 2, 'm': 23, 'nx': 21, 'scale': 0.004}])
+def reduced_matrix(ctx, r, m, nx, scale=None):
     """_reduced_matrix(last_core, x_idx, y_idx) == V Psi_y^T U S^-1 with the SVD of the x-columns, relative cut 1e-3 explored by forking"""
     ted = ctx.R.tedmd
     if ctx.mode == 'tv':
@@ -250,9 +252,16 @@ def reduced_matrix(ctx, r, m, nx):
     xi = np.arange(0, nx)
     yi = np.arange(m - nx, m)
     if not ctx.sym:
+        if scale is not None and r > 1:
+            last = np.array(last)
+            last[1:] *= scale                 # singular values of the x-part spread over orders of magnitude (still above the 1e-3 cut)
         M, u, s, v = ted._reduced_matrix(np.asarray(last), xi, yi)
         Lx = np.asarray(last)[:, xi, 0, 0].reshape(r, nx)
         Ly = np.asarray(last)[:, yi, 0, 0].reshape(r, nx)
+        svx = np.linalg.svd(Lx, compute_uv=False)
+        if not np.any(np.abs(svx / svx[0] - 1e-3) < 1e-5):
+            ctx.check('kept singular values are exactly those above the relative cut 1e-3', len(s) == int(np.sum(svx / svx[0] > 1e-3)),
+                      detail='%d kept, spectrum %s' % (len(s), (svx / svx[0]).tolist()))
         K = np.linalg.pinv(Lx.T, rcond=1e-3) @ Ly.T          # r x r
         # M is similar to K restricted to the kept subspace: compare eigenvalues
         ctx.eq('reduced matrix has the eigenvalues of pinv(Psi_x^T) Psi_y^T', np.sort_complex(np.linalg.eigvals(np.asarray(M)))[-len(s):],
@@ -267,7 +276,10 @@ def reduced_matrix(ctx, r, m, nx):
             ex.assume(a)
         lapack.set_policy(lapack.FreePolicy(assume_sorted_spectrum=True, positive_spectrum='first'))
         M, u, s, v = ted._reduced_matrix(last, xi, yi)
-        sv = [c for c in state.S.stub_log if c.kind == 'svd'][-1]
+        svs = [c for c in state.S.stub_log if c.kind == 'svd']
+        if not ctx.check('the x-columns of the last core are decomposed by one SVD', len(svs) == 1):
+            return 0
+        sv = svs[-1]
         k = s.shape[0]
         with ctx.group('reduced matrix has the eigenvalues of pinv(Psi_x^T) Psi_y^T'):
             ctx.eq('SVD argument == x-columns of the last core', sv.a, last[:, xi, 0, 0].reshape(r, nx))
